@@ -7,8 +7,9 @@ META = {
     'level': 'model_checking',
     'technique': 'TLA+ spec GenoViews.tla (extends Geno.tla): decision ids, decision points in declaration order, the '
                  'intended binding of every DNA node (ATree), lookups (LookupRef) and the DnaOps transition system '
-                 '(fresh / clone / swap) whose invariant OpsAligned TLC checks exhaustively (intended semantics holds; '
-                 'the as-coded Swap yields the counter-example); then TLC (GenoViewsLaws.tla) evaluates on observations '
+                 '(fresh / lookup / clone / in-place mutation / swap, with the lazily built lookup table as state) whose '
+                 'invariants OpsAligned, OpsLookup, MemoFresh TLC checks exhaustively (intended semantics holds; the as-coded '
+                 'Swap and a clone that inherits the lookup table yield counter-examples); then TLC (GenoViewsLaws.tla) evaluates on observations '
                  'of the real code: round trips of every view under every option tuple, lookups by decision point / id / '
                  'name against LookupRef, alignment of every node after every step of random chains of library '
                  'operations (trace validation against DnaOps), equality of the views with those of the rebuilt DNA',
@@ -85,6 +86,7 @@ def account(chk, obs):
       chk.distinct_case((s, [st[0] for st in ch['steps']], ch['start']))
       for st in ch['steps']:
         chk.count('op:' + st[0])
+        chk.count('lookups_after_operation', 3 * len(st[6]['lookups']) + len(st[6]['multis']) + len(st[6]['names']))
         if geno_views.plain(st[2]) != st[1]:
           chk.count('op_changed_dna:' + st[0])
 
@@ -107,6 +109,8 @@ def run(chk):
     res = geno.tlc_jobs({
         'intended': lambda: tlc.run('GenoViews', 'C12_ops.cfg', timeout=900, workers=4),
         'ascoded': lambda: tlc.run('GenoViews', 'C12_ops_ascoded.cfg', timeout=900, workers=4, allow_violation=True),
+        'sharememo': lambda: tlc.run('GenoViews', 'C12_ops_sharememo.cfg', timeout=900, workers=4,
+                                     allow_violation=True),
         'export': lambda: tlc.export_json('GenoViewsExport', cfg['export'], env={'SALT': str(chk.seed)}, timeout=900),
     })
   r = res['intended']
@@ -122,6 +126,13 @@ def run(chk):
                                      'counter-example; the chains below run the real mutators.Swap)')
   chk.require((not r2.ok) and r2.violated == 'OpsAligned',
               'the as-coded Swap model no longer violates OpsAligned: the model lost its sensitivity')
+  r4 = res['sharememo']
+  chk.add_tlc(r4, count_states=False)
+  chk.notes['model_shared_lookup_tables'] = dict(r4.summary(), note='ShareMemo = TRUE: a clone inherits the lazily built '
+                                                 'lookup tables; TLC is expected to violate MemoFresh (lookup, clone + '
+                                                 'in-place mutation, stale table)')
+  chk.require((not r4.ok) and r4.violated == 'MemoFresh',
+              'the ShareMemo model no longer violates MemoFresh: the model lost its sensitivity')
   entries, r3 = res['export']
   chk.add_tlc(r3, count_states=False)
   chk.require(len(entries) >= 60, f'vacuous: only {len(entries)} specs exported')
@@ -142,7 +153,8 @@ def run(chk):
                   'lookups(d[dp], d[id], d[str id])': [[geno.tree_str(t) for t in row] for row in x['lookups'][:6]]})
   # vacuity guards
   c = chk.counters
-  for need in ['roundtrips_dict', 'bindings_compared', 'lookups', 'lookups_inactive', 'lookups_multi', 'lookups_by_name'] + \
+  for need in ['roundtrips_dict', 'bindings_compared', 'lookups', 'lookups_inactive', 'lookups_multi', 'lookups_by_name',
+               'lookups_after_operation'] + \
       ['op:' + op for op in geno_views.OPS] + \
       ['op_changed_dna:' + op for op in ('next', 'random', 'uniform', 'swap', 'rc_uniform', 'kpoint')]:
     chk.require(c.get(need, 0) > 0, f'vacuous: counter {need} is zero')
